@@ -30,8 +30,14 @@ def setup(w):
     os.makedirs(d)
     r = sh(f"git -C {REPO} worktree add -q --detach {d}/repo HEAD")
     assert r.returncode == 0, r.stdout
-    shutil.copytree(os.path.join(ROOT, "sim"), f"{d}/sim", ignore=shutil.ignore_patterns("target"))
-    shutil.copytree(os.path.join(ROOT, "data"), f"{d}/data")
+    rev = os.environ.get("VPAR_VERIF_REV")
+    if rev:
+        # the simulator as it stood at an earlier commit of /verif (how much did the checks catch back then?)
+        sh(f"mkdir -p {d}/old && git -C {ROOT} archive {rev} sim data | tar -x -C {d}/old && mv {d}/old/sim {d}/sim && mv {d}/old/data {d}/data")
+        shutil.copy(os.path.join(ROOT, "sim", "build.rs"), f"{d}/sim/build.rs")  # same generator, honours VERIF_REPO
+    else:
+        shutil.copytree(os.path.join(ROOT, "sim"), f"{d}/sim", ignore=shutil.ignore_patterns("target"))
+        shutil.copytree(os.path.join(ROOT, "data"), f"{d}/data")
     ct = open(f"{d}/sim/Cargo.toml").read().replace('path = "/repo/rspirv"', f'path = "{d}/repo/rspirv"').replace('path = "/repo/spirv"', f'path = "{d}/repo/spirv"')
     open(f"{d}/sim/Cargo.toml", "w").write(ct)
     cfg = open(f"{d}/sim/.cargo/config.toml").read().replace('target-dir = "../target"', f'target-dir = "{d}/target"')
@@ -170,9 +176,10 @@ def main():
             else:
                 verdict, clause, pcol = "MISSED " + json.dumps({c: v[0] for c, v in chk.items()}) + res.get("error", ""), "", prop
             lines.append(f"| {d} | {pcol} | {verdict} | {clause[:120]} | {meta.get('needs_to_manifest','')[:220]}{' — ' + meta['history'] if 'history' in meta else ''} |")
-            meta["last_rerun"] = {"verdict": verdict, "clause": clause}
-            json.dump(meta, open(os.path.join(ROOT, "seeded", d, "meta.json"), "w"), indent=1)
-        if not sel:
+            if not os.environ.get("VPAR_VERIF_REV"):
+                meta["last_rerun"] = {"verdict": verdict, "clause": clause}
+                json.dump(meta, open(os.path.join(ROOT, "seeded", d, "meta.json"), "w"), indent=1)
+        if not sel and not os.environ.get("VPAR_VERIF_REV"):
             open(os.path.join(ROOT, "seeded", "RESULTS.md"), "w").write("\n".join(lines) + "\n")
         missed = [l for l in lines if "| MISSED" in l]
         print(f"{len(order)} changes, {len(missed)} missed")
